@@ -92,6 +92,11 @@ class ListIter:
         self.arr, self.lo, self.hi, self.mutable, self.enum = arr, lo, hi, mutable, enumerate_
 
 
+class ZipIter:
+    def __init__(self, a, b):
+        self.a, self.b = a, b
+
+
 class Closure:
     def __init__(self, params, body, frame):
         self.params, self.body, self.frame = params, body, frame
@@ -711,13 +716,15 @@ class Exec:
 
     def e_for(self, e, frame):
         it = self.expr(e["iter"], frame)
-        if isinstance(it, ListIter):
+        if isinstance(it, (ListIter, ZipIter)):
+            def items(li):
+                for k in range(li.lo, li.hi):
+                    item = Ref(Place(li.arr, k)) if li.mutable else li.arr[k]
+                    yield (T.num(k - li.lo, UINT), item) if li.enum else item
+            seq = items(it) if isinstance(it, ListIter) else zip(items(it.a), items(it.b))
             try:
-                for k in range(it.lo, it.hi):
-                    item = Ref(Place(it.arr, k)) if it.mutable else it.arr[k]
-                    if it.enum:
-                        item = (T.num(k - it.lo, UINT), item)
-                    self.bind(frame, e["pat"], item)
+                for item in seq:
+                    self.bind(frame, e["pat"], tuple(item) if isinstance(it, ZipIter) else item)
                     self.block(e["body"], frame)
             except BreakSig:
                 pass
@@ -891,6 +898,12 @@ class Exec:
         if isinstance(robj, ListIter):
             if m == "enumerate":
                 return ListIter(robj.arr, robj.lo, robj.hi, robj.mutable, True)
+            if m == "zip":
+                o = args[0]
+                if isinstance(o, Arr):
+                    o = ListIter(o, 0, len(o), False)
+                if isinstance(o, ListIter):
+                    return ZipIter(robj, o)
             if m == "sum" and not robj.enum:
                 tot = T.num(0, UINT)
                 for k in range(robj.lo, robj.hi):
